@@ -1,8 +1,9 @@
 (* C13 bridge: the definitions regenerated from the source on this run (Gen.v) are the model the
    theorems are about and the correspondence run evaluates - for all arguments.  Any change of the
-   shift expression, of np.roll's direction/amount, of the operator per model, of what update()
-   does to the stored training index, of the horizon Detrender forecasts at, or of fit_transform's
-   body makes one of these lemmas fail. *)
+   per-time-point phase expression (operand order, reference time point, modulus, an off-by-one),
+   of which index the comprehension ranges over, of the operator per model, of what update() does
+   to the stored training index, of the horizon Detrender forecasts at, or of fit_transform's body
+   makes one of these lemmas fail (or the translator fail closed). *)
 From Coq Require Import ZArith QArith List Bool.
 Require Import SkV.C13.Model SkV.C13.Gen SkV.C13.Proofs.
 Import ListNotations.
@@ -12,7 +13,7 @@ Lemma gen_get_duration_eq x y : gen_get_duration x y = get_duration x y.
 Proof. reflexivity. Qed.
 
 Lemma gen_align_eq d s :
-  gen_align_seasonal (d_seasonal d) (sstart s) (d_t0 d) (d_sp d) (slen s) = align_seasonal d s.
+  gen_align_seasonal (d_seasonal d) (sindex s) (d_t0 d) (d_sp d) = align_seasonal d s.
 Proof. reflexivity. Qed.
 
 Lemma gen_des_op_eq m : gen_des_op m = op_fwd m /\ gen_des_inv_op m = op_inv m.
@@ -48,56 +49,72 @@ Proof. destruct X; reflexivity. Qed.
 (* ---- the property's sentences about the regenerated code ---------------------------------------- *)
 Lemma code_seasonal_phase_only_mod_sp decompose sp m y zs s i :
   let d := fold_left gen_des_update zs (des_fit decompose sp m y) in
-  wf (des_fit decompose sp m y) -> (i < length (svals s))%nat ->
-  nth i (gen_align_seasonal (d_seasonal d) (sstart s) (d_t0 d) (d_sp d) (slen s)) 0%Q =
-  zn (decompose m sp (svals y)) ((sstart s + Z.of_nat i - sstart y) mod sp).
+  (i < length s)%nat ->
+  nth i (gen_align_seasonal (d_seasonal d) (sindex s) (d_t0 d) (d_sp d)) 0%Q =
+  zn (decompose m sp (svals y)) ((time_at s i - sstart y) mod sp).
 Proof.
-  intros d W Hi. unfold d. rewrite gen_align_eq, gen_des_after_eq.
+  intros d Hi. unfold d. rewrite gen_align_eq, gen_des_after_eq.
   apply seasonal_phase_only_mod_sp; assumption.
+Qed.
+
+(* the position looked up in seasonal_ is a valid one: 0 <= (t - t0) mod sp < sp = len(seasonal_) *)
+Lemma code_phase_in_range decompose sp m y zs s i :
+  let d := fold_left gen_des_update zs (des_fit decompose sp m y) in
+  wf (des_fit decompose sp m y) -> (i < length s)%nat ->
+  0 <= (time_at s i - sstart y) mod sp < Z.of_nat (length (decompose m sp (svals y))) /\
+  In (nth i (gen_align_seasonal (d_seasonal d) (sindex s) (d_t0 d) (d_sp d)) 0%Q)
+     (decompose m sp (svals y)).
+Proof.
+  intros d W Hi. pose proof W as [Hsp HL]. cbn [des_fit d_sp d_seasonal] in Hsp, HL.
+  split; [rewrite HL; apply Z.mod_pos_bound; exact Hsp|].
+  unfold d. rewrite code_seasonal_phase_only_mod_sp by exact Hi.
+  apply zn_in. rewrite HL. apply Z.mod_pos_bound. exact Hsp.
 Qed.
 
 Lemma code_same_phase_same_component decompose sp m y zs zs' s s' i i' :
   let d := fold_left gen_des_update zs (des_fit decompose sp m y) in
   let d' := fold_left gen_des_update zs' (des_fit decompose sp m y) in
-  wf (des_fit decompose sp m y) ->
-  (i < length (svals s))%nat -> (i' < length (svals s'))%nat ->
-  (sstart s + Z.of_nat i) mod sp = (sstart s' + Z.of_nat i') mod sp ->
-  nth i (gen_align_seasonal (d_seasonal d) (sstart s) (d_t0 d) (d_sp d) (slen s)) 0%Q =
-  nth i' (gen_align_seasonal (d_seasonal d') (sstart s') (d_t0 d') (d_sp d') (slen s')) 0%Q.
+  (i < length s)%nat -> (i' < length s')%nat ->
+  time_at s i mod sp = time_at s' i' mod sp ->
+  nth i (gen_align_seasonal (d_seasonal d) (sindex s) (d_t0 d) (d_sp d)) 0%Q =
+  nth i' (gen_align_seasonal (d_seasonal d') (sindex s') (d_t0 d') (d_sp d')) 0%Q.
 Proof.
-  intros d d' W Hi Hi' E. unfold d, d'. rewrite !gen_align_eq, !gen_des_after_eq.
+  intros d d' Hi Hi' E. unfold d, d'. rewrite !gen_align_eq, !gen_des_after_eq.
   apply same_phase_same_component; assumption.
 Qed.
 
-Lemma code_des_transform_nth d s i : wf d -> (i < length (svals s))%nat ->
-  nth i (svals (gen_des_transform d s)) 0%Q =
-  gen_des_op (d_model d) (nth i (svals s) 0%Q)
-             (zn (d_seasonal d) ((sstart s + Z.of_nat i - d_t0 d) mod d_sp d)).
+Lemma code_des_transform_nth d s i : (i < length s)%nat ->
+  val_at (gen_des_transform d s) i =
+  gen_des_op (d_model d) (val_at s i) (zn (d_seasonal d) ((time_at s i - d_t0 d) mod d_sp d)) /\
+  val_at (gen_des_inverse d s) i =
+  gen_des_inv_op (d_model d) (val_at s i) (zn (d_seasonal d) ((time_at s i - d_t0 d) mod d_sp d)).
 Proof.
-  intros W Hi. rewrite gen_des_transform_eq. rewrite des_transform_nth by assumption.
-  destruct (gen_des_op_eq (d_model d)) as [-> _]. reflexivity.
+  intros Hi. rewrite gen_des_transform_eq, gen_des_inverse_eq.
+  rewrite des_transform_nth, des_inverse_nth by assumption.
+  destruct (gen_des_op_eq (d_model d)) as [-> ->]. split; reflexivity.
 Qed.
 
 Lemma code_des_roundtrip decompose sp m y zs s :
   let d := fold_left gen_des_update zs (des_fit decompose sp m y) in
   wf (des_fit decompose sp m y) ->
   (m = Additive \/ Forall (fun c => ~ c == 0)%Q (decompose m sp (svals y))) ->
-  seq_eq (gen_des_inverse d (gen_des_transform d s)) s /\
-  sindex (gen_des_transform d s) = sindex s /\ sindex (gen_des_inverse d s) = sindex s.
+  seq_eq (gen_des_inverse d (gen_des_transform d s)) s.
 Proof.
   intros d W Hc. unfold d. rewrite gen_des_after_eq, gen_des_inverse_eq, !gen_des_transform_eq.
-  destruct (des_roundtrip decompose sp m y zs s W Hc) as [H1 H2]. split; [exact H1|].
-  split; [exact H2|]. rewrite gen_des_inverse_eq. apply des_index_preserved.
-  rewrite des_after_update. exact W.
+  exact (proj1 (des_roundtrip decompose sp m y zs s W Hc)).
 Qed.
 
-Lemma code_des_roundtrip_at d s i : wf d -> (i < length (svals s))%nat ->
+Lemma code_des_index_preserved d s :
+  sindex (gen_des_transform d s) = sindex s /\ sindex (gen_des_inverse d s) = sindex s.
+Proof. rewrite gen_des_transform_eq, gen_des_inverse_eq. apply des_index_preserved. Qed.
+
+Lemma code_des_roundtrip_at d s i : (i < length s)%nat ->
   (d_model d = Additive \/
-   ~ zn (d_seasonal d) ((sstart s + Z.of_nat i - d_t0 d) mod d_sp d) == 0)%Q ->
-  (nth i (svals (gen_des_inverse d (gen_des_transform d s))) 0 == nth i (svals s) 0)%Q /\
-  (nth i (svals (gen_des_transform d (gen_des_inverse d s))) 0 == nth i (svals s) 0)%Q.
+   ~ zn (d_seasonal d) ((time_at s i - d_t0 d) mod d_sp d) == 0)%Q ->
+  (val_at (gen_des_inverse d (gen_des_transform d s)) i == val_at s i)%Q /\
+  (val_at (gen_des_transform d (gen_des_inverse d s)) i == val_at s i)%Q.
 Proof.
-  intros W Hi Hc. rewrite !gen_des_inverse_eq, !gen_des_transform_eq. split.
+  intros Hi Hc. rewrite !gen_des_inverse_eq, !gen_des_transform_eq. split.
   - apply des_roundtrip_at; assumption.
   - apply des_roundtrip_at'; assumption.
 Qed.
@@ -108,20 +125,22 @@ Lemma code_det_roundtrip trend s :
   sindex (gen_det_transform trend s) = sindex s /\ sindex (gen_det_inverse trend s) = sindex s.
 Proof. exact (det_roundtrip trend s). Qed.
 
-Lemma code_det_transform_nth trend s i : (i < length (svals s))%nat ->
-  nth i (svals (gen_det_transform trend s)) 0%Q =
-  (nth i (svals s) 0 - trend (sstart s + Z.of_nat i)%Z)%Q.
-Proof. exact (det_transform_nth trend s i). Qed.
+Lemma code_det_transform_nth trend s i : (i < length s)%nat ->
+  val_at (gen_det_transform trend s) i = (val_at s i - trend (time_at s i))%Q /\
+  val_at (gen_det_inverse trend s) i = (val_at s i + trend (time_at s i))%Q.
+Proof.
+  intro Hi. split; [exact (det_transform_nth trend s i Hi)|exact (det_inverse_nth trend s i Hi)].
+Qed.
 
-Lemma code_des_shift_equivariant decompose sp m y zs s k :
+Lemma code_des_shift_equivariant decompose sp m y zs s k : y <> [] ->
   let d := fold_left gen_des_update zs (des_fit decompose sp m y) in
   let d' := fold_left gen_des_update (map (shift_series k) zs)
                       (des_fit decompose sp m (shift_series k y)) in
   gen_des_transform d' (shift_series k s) = shift_series k (gen_des_transform d s) /\
   gen_des_inverse d' (shift_series k s) = shift_series k (gen_des_inverse d s).
 Proof.
-  cbv zeta. rewrite !gen_des_after_eq, !gen_des_transform_eq, !gen_des_inverse_eq.
-  apply des_shift_equivariant.
+  intro H. cbv zeta. rewrite !gen_des_after_eq, !gen_des_transform_eq, !gen_des_inverse_eq.
+  apply des_shift_equivariant. exact H.
 Qed.
 
 Lemma code_det_shift_equivariant trend trend' s k :
@@ -129,3 +148,15 @@ Lemma code_det_shift_equivariant trend trend' s k :
   seq_eq (gen_det_transform trend' (shift_series k s)) (shift_series k (gen_det_transform trend s)) /\
   seq_eq (gen_det_inverse trend' (shift_series k s)) (shift_series k (gen_det_inverse trend s)).
 Proof. exact (det_shift_equivariant trend trend' s k). Qed.
+
+(* the sentence "for the training series and for any later or overlapping stretch of time", spelled
+   out: the training series itself, and a stretch starting at ANY offset off from the training
+   start (off < 0 before, 0 <= off < len(y) overlapping, off >= len(y) later), after any updates *)
+Lemma code_des_roundtrip_training_and_stretches decompose sp m y zs off vals :
+  let d := fold_left gen_des_update zs (des_fit decompose sp m y) in
+  let s := contiguous (sstart y + off) vals in
+  wf (des_fit decompose sp m y) ->
+  (m = Additive \/ Forall (fun c => ~ c == 0)%Q (decompose m sp (svals y))) ->
+  seq_eq (gen_des_inverse d (gen_des_transform d y)) y /\
+  seq_eq (gen_des_inverse d (gen_des_transform d s)) s.
+Proof. intros d s W Hc. split; apply code_des_roundtrip; assumption. Qed.
